@@ -495,8 +495,9 @@ class FaultWorld:
                 base = name[1:]
                 bounds = sorted(self._all_bounds_for_node(int(base)))
                 m0 = 100_000
+                skip = sc["nodes"][int(base)].get("skip", [])
                 for k, t in enumerate(bounds):
-                    if t < self.end_ns:
+                    if t < self.end_ns and not any(lo * 1_000_000 <= t <= hi * 1_000_000 for lo, hi in skip):
                         self.jobs.append((t, e, m0 + k))
                         self.job_times[name][m0 + k] = t
         for t, e, m in sorted(self.jobs, key=lambda x: (x[0], x[1].name, x[2])):
@@ -717,6 +718,9 @@ class FaultWorld:
                 raise Violation(f"{P}/capacity-restore-accounting/ReduceCapacity/{how}",
                                 f"{rname} at t={t}ns, every ReduceCapacity window over: available={res.available} + "
                                 f"held={h} != configured capacity {cfg}")
+            if self.tl.has(key) and any(edge == "end" for edge, _ in self.tl.last_edges(key, t)) and \
+                    any(not a.fut.is_resolved for a in self.acqs[rname]):
+                self.c["probe.waiter_still_queued_after_restore_legitimately"] = 1
             if res.waiters:
                 head = next((a for a in self.acqs[rname] if not a.fut.is_resolved), None)
                 if head is not None and res.available >= head.amount:
@@ -739,6 +743,8 @@ class FaultWorld:
                 obs = nw.is_partitioned(a, b)
                 if active:
                     self.states.add("part:" + "+".join(sorted(w[4] for w in active)))
+                    if obs and any(edge == "end" for edge, _ in tl.last_edges(key, t)):
+                        self.c["probe.overlap_held.partition_after_other_window_ended"] = 1
                 if obs != bool(active):
                     if not tl.has(key):
                         cw = [c for c in self.cancelled_windows.get(key, ()) if c[0] <= t <= c[1]]
@@ -764,6 +770,8 @@ class FaultWorld:
                     want = loss0
                     bad = obs != want
                     symptom = "lingering"
+                if active and not bad and any(edge == "end" for edge, _ in tl.last_edges(key, t)):
+                    self.c["probe.overlap_held.loss_after_other_window_ended"] = 1
                 if bad:
                     if not tl.has(key):
                         cw = [c for c in self.cancelled_windows.get(key, ()) if c[0] <= t <= c[1]]
@@ -856,6 +864,10 @@ class FaultWorld:
                     raise Violation(f"{P}/{sig}", f"probe {pid} {a}->{b} sent at {sent}ns inside latency window(s) "
                                     f"{[(w[2], w[4]) for w in act]} took base+{extra}ns, needs >= base+{need}ns")
                 self.c["probe.latency_added_observed"] = 1
+                if len(act) > 1:
+                    self.c["probe.overlap_held.latency_under_two_windows"] = 1
+                if any(edge == "end" for edge, _ in tl.last_edges(kd, sent)):
+                    self.c["probe.overlap_held.latency_after_other_window_ended"] = 1
             elif abs(extra) > LAT_TOL_NS:
                 sig = self._attr(kd, sent, "InjectLatency", "lingering") if tl.has(kd) else \
                     "bystander-affected/NetworkLink/latency"
@@ -890,9 +902,14 @@ class FaultWorld:
             self.c["probe.job_on_boundary"] = 1
             return
         m = ev.context["metadata"]["m"]
-        if self.tl.active(key, t):
+        act = self.tl.active(key, t)
+        if act:
             self.judged_in_window += 1
             self.c["probe.job_dropped_in_down_window"] += 1
+            if len(act) > 1:
+                self.c["probe.overlap_held.node_down_under_two_windows"] = 1
+            if any(edge == "end" for edge, _ in self.tl.last_edges(key, t)):
+                self.c["probe.overlap_held.node_still_down_after_other_window_ended"] = 1
             return
         if any(c[0] == t or c[1] == t for c in self.cancelled_windows.get(key, ())):
             return
